@@ -144,3 +144,16 @@ Theorem array_element_link_old_refuted :
     Some (run_nocache doc_qx top []) = run_spec doc_qx ds_f20b [] /\
     Some (run_nocache doc_qx (legacy_unlink top) []) <> run_spec doc_qx ds_f20b [].
 Proof. exact f20_unlinked_elements_requery. Qed.
+
+(* The emitted field name of an object member is exactly the declared name: on the fqdn as a list
+   of namelets (what eval uses: obj_key), and on the fqdn STRING as the Go code computes it
+   (strs.BuildFQDN / BuildFQDNWithEsc / SplitWithEsc / Unescape), for every name and every parent
+   fqdn that does not end in an unfinished escape (esc_state_build: validate only builds such). *)
+Theorem fqdn_key_roundtrip : forall parent name,
+  esc_state parent false = false ->
+  last_namelet_str (build_fqdn parent (esc_name name)) = name
+  /\ esc_state (build_fqdn parent (esc_name name)) false = false.
+Proof. intros. split; [apply fqdn_key_roundtrip|apply esc_state_build]; assumption. Qed.
+
+Theorem obj_key_roundtrip : forall parent name, obj_key (parent ++ [esc_name name]) = name.
+Proof. exact obj_key_roundtrip. Qed.
